@@ -267,12 +267,31 @@ def eq_sides(pred):
     return None
 
 
-def is_cast_of_elem(mp, ty_suffix=None, poly=False):
+def is_cast_of_elem(mp, ty_suffix=None, poly=False, via_cast=False):
     """M(x) = x.cast::<T>()  (call term, or cast's own return term once the rules' inliner has looked into it)"""
     if mp[0] == "call" and cn(mp[1]) == "multiboot2_common::DynSizedStructure::cast" and mp[2] == (ELEM,):
         if poly:
             return str(mp[1]).endswith("::cast::<T>")
         return ty_suffix is None or ty_suffix in str(mp[1])
-    if mp[0] == "fatptr" and mp[1] == ELEM:
+    if mp[0] == "fatptr" and mp[1] == ELEM and not poly and via_cast:
+        # cast's own return term (the rules' term builder looks into single-return callees); only accepted when the
+        # function really calls cast - a hand-built fat pointer skips cast's assertions (C15)
         return ty_suffix is None or str(mp[3]).endswith(ty_suffix)
     return False
+
+
+def calls_cast_only(F, inst):
+    """every fat pointer of `inst` (and its closures) comes from a call of DynSizedStructure::cast: it calls cast and never
+    ptr_meta::from_raw_parts itself"""
+    from . import mir as M2
+    keys = [k for k in F.insts if k == inst.get("key") or k.startswith((inst.get("key") or "\0") + "::{closure")]
+    saw_cast = False
+    for k in keys:
+        b = M2.Body(F.insts[k])
+        for bb, t in b.calls():
+            p = M2.callee_path(t) or ""
+            if cn(M2.callee_key(t) or "") == "multiboot2_common::DynSizedStructure::cast":
+                saw_cast = True
+            if p.startswith("ptr_meta::from_raw_parts"):
+                return False
+    return saw_cast
